@@ -235,10 +235,13 @@ fn env_replay_doc(prop: &str, mode: &str, v: &Value, seed: u64) -> (String, Valu
     #[allow(non_snake_case)]
     let VERIF = verif_root();
     let run = v["run"].as_u64().unwrap_or(0);
-    let path = format!("{VERIF}/replays/{prop}-env-{seed}-{}.json", if run == u64::MAX { "sweep".to_string() } else { run.to_string() });
+    let build = std::env::var("VERIF_BUILD").unwrap_or_default();
+    let tag = if build.is_empty() { String::new() } else { format!("{build}-") };
+    let path = format!("{VERIF}/replays/{prop}-env-{tag}{seed}-{}.json", if run == u64::MAX { "sweep".to_string() } else { run.to_string() });
     let doc = json!({
         "property": prop,
-        "engine": "envsim",
+        "engine": if build.is_empty() { "envsim".to_string() } else { format!("iosim-{build}") },
+        "simulator": "envsim",
         "mode": mode,
         "violation_class": v["class"],
         "violation_detail": v["detail"],
@@ -321,7 +324,11 @@ pub fn cmd_run_c09(tier_name: &str) -> ExitCode {
     let mut concurrent = json!({"skipped": "cargo +nightly miri or the miri-sim driver is not available"});
     let driver = format!("{VERIF}/target/miri/release/c19-miri");
     let have_miri = std::process::Command::new("cargo").args(["+nightly", "miri", "--version"]).output().map(|o| o.status.success()).unwrap_or(false);
-    if violations == 0 && have_miri && std::path::Path::new(&driver).exists() {
+    let second_batch = std::env::var("VERIF_BUILD").map(|b| !b.is_empty()).unwrap_or(false);
+    if second_batch {
+        concurrent = json!({"skipped": "run by the main batch only"});
+    }
+    if violations == 0 && have_miri && !second_batch && std::path::Path::new(&driver).exists() {
         let n = env_u64("VERIF_C09_MIRI_SEEDS").unwrap_or(if tier == "thorough" { 384 } else { 48 });
         let mrep_path = format!("{VERIF}/target/tmp/c09-miri-{}.json", std::process::id());
         let _ = std::fs::create_dir_all(format!("{VERIF}/target/tmp"));
@@ -410,7 +417,11 @@ pub fn cmd_run_c09(tier_name: &str) -> ExitCode {
         "violations": violations,
     });
     let _ = std::fs::create_dir_all(format!("{VERIF}/evidence"));
-    if let Err(e) = std::fs::write(format!("{VERIF}/evidence/C09.json"), serde_json::to_string_pretty(&ev).unwrap() + "\n") {
+    let ev_path = match std::env::var("VERIF_BUILD") {
+        Ok(b) if !b.is_empty() => format!("{VERIF}/evidence/C09.{b}-build.json"),
+        _ => format!("{VERIF}/evidence/C09.json"),
+    };
+    if let Err(e) = std::fs::write(ev_path, serde_json::to_string_pretty(&ev).unwrap() + "\n") {
         eprintln!("vsim: HARNESS ERROR: cannot write evidence: {e}");
         return ExitCode::from(2);
     }
@@ -709,7 +720,7 @@ pub fn cmd_replay(path: &str) -> ExitCode {
     if doc.get("engine").and_then(|x| x.as_str()) == Some("c17std") {
         return ExitCode::from(crate::envsim::c17std_replay(&doc, path) as u8);
     }
-    if doc.get("engine").and_then(|x| x.as_str()) == Some("envsim") {
+    if doc.get("engine").and_then(|x| x.as_str()) == Some("envsim") || doc.get("simulator").and_then(|x| x.as_str()) == Some("envsim") {
         return ExitCode::from(crate::envsim::replay(&doc, path) as u8);
     }
     let tv = doc.get("trace").unwrap_or(&doc);
